@@ -116,13 +116,8 @@ def network_simplex(
 
     # state[arc]: 1 = at lower bound (can increase), -1 = at upper bound (can decrease), 0 = basic (in tree)
     state = [0] * total_arcs
-    for arc in range(total_arcs):
-        if flow[arc] == 0:
-            state[arc] = 1
-        elif flow[arc] == cap[arc]:
-            state[arc] = -1
-        else:
-            state[arc] = 0
+    for arc in range(m):
+        state[arc] = 1  # original arcs start empty; the artificial arcs form the basis
 
     iterations = 0
 
@@ -216,69 +211,14 @@ def network_simplex(
                 flow[arc] -= delta
             node = parent[node]
 
-        for arc in range(total_arcs):
-            if flow[arc] == 0:
-                state[arc] = 1
-            elif flow[arc] == cap[arc]:
-                state[arc] = -1
-            else:
-                state[arc] = 0
+        if leaving == entering:
+            # Entering arc went from one bound to the other; basis unchanged
+            state[entering] = -state[entering]
+            continue
 
-        if leaving != entering:
-            if leaving_first:
-                leaving_node = first
-                while pred[leaving_node] != leaving:
-                    leaving_node = parent[leaving_node]
-                new_parent = second
-            else:
-                leaving_node = second
-                while pred[leaving_node] != leaving:
-                    leaving_node = parent[leaving_node]
-                new_parent = first
-
-            prev_thread = rev_thread[leaving_node]
-            subtree_last = leaving_node
-            node = thread[leaving_node]
-            while depth[node] > depth[leaving_node]:
-                subtree_last = node
-                node = thread[node]
-
-            thread[prev_thread] = thread[subtree_last]
-            rev_thread[thread[subtree_last]] = prev_thread
-
-            attach_point = new_parent
-            node = thread[new_parent]
-            while node != new_parent and depth[node] > depth[new_parent]:
-                attach_point = node
-                node = thread[node]
-
-            thread[subtree_last] = thread[attach_point]
-            if thread[attach_point] < total_nodes:
-                rev_thread[thread[attach_point]] = subtree_last
-            thread[attach_point] = leaving_node
-            rev_thread[leaving_node] = attach_point
-
-            parent[leaving_node] = new_parent
-            pred[leaving_node] = entering
-
-            diff = depth[new_parent] + 1 - depth[leaving_node]
-            node = leaving_node
-            while True:
-                depth[node] += diff
-                node = thread[node]
-                if depth[node] <= depth[leaving_node] - diff or node == leaving_node:
-                    break
-
-            node = leaving_node
-            while True:
-                arc = pred[node]
-                if source[arc] == parent[node]:
-                    pi[node] = pi[parent[node]] - cost[arc]
-                else:
-                    pi[node] = pi[parent[node]] + cost[arc]
-                node = thread[node]
-                if depth[node] <= depth[new_parent] or node == leaving_node:
-                    break
+        state[entering] = 0
+        state[leaving] = 1 if flow[leaving] == 0 else -1
+        _rebuild_tree(root, state, source, target, cost, parent, pred, depth, pi, m)
 
     for arc in range(m, total_arcs):
         if flow[arc] > 0:
@@ -288,6 +228,32 @@ def network_simplex(
     flow_dict = {(source[i], target[i]): flow[i] for i in range(m) if flow[i] > 0}
 
     return Result(flow_dict, total_cost, iterations, total_arcs)
+
+
+def _rebuild_tree(root, state, source, target, cost, parent, pred, depth, pi, m):
+    """Recompute parent/pred/depth/potentials of the spanning tree given by the basic arcs."""
+    adjacent: list[list[int]] = [[] for _ in parent]
+    for arc, st in enumerate(state):
+        if st == 0:
+            adjacent[source[arc]].append(arc)
+            adjacent[target[arc]].append(arc)
+
+    seen = [False] * len(parent)
+    seen[root] = True
+    stack = [root]
+    while stack:
+        u = stack.pop()
+        for arc in adjacent[u]:
+            v = target[arc] if source[arc] == u else source[arc]
+            if seen[v]:
+                continue
+            seen[v] = True
+            parent[v] = u
+            pred[v] = arc
+            depth[v] = depth[u] + 1
+            # reduced cost of a tree arc is zero: cost - pi[src] + pi[tgt] = 0
+            pi[v] = pi[u] - cost[arc] if source[arc] == u else pi[u] + cost[arc]
+            stack.append(v)
 
 
 def _find_join(u, v, depth, parent):
